@@ -17,7 +17,10 @@ import os
 for _v in ("OMP_NUM_THREADS", "OPENBLAS_NUM_THREADS", "MKL_NUM_THREADS"):
     os.environ.setdefault(_v, "1")
 
+import contextlib  # noqa: E402
 import hashlib  # noqa: E402
+import signal  # noqa: E402
+import threading  # noqa: E402
 import tempfile  # noqa: E402
 import warnings  # noqa: E402
 
@@ -208,6 +211,34 @@ def same_canon(a, b, rtol=1e-9, atol=1e-11):
     return True, None
 
 
+class CallTimeout(Exception):
+    """A library call exceeded the watchdog limit (e.g. a solver fed with corrupted callback results never terminates)."""
+
+
+_LIMIT = {"first": 25.0, "later": 4.0, "hit": False}
+
+
+@contextlib.contextmanager
+def time_limit():
+    """Watchdog around every library call: the driver stays bounded whatever the library does."""
+    usable = hasattr(signal, "setitimer") and threading.current_thread() is threading.main_thread()
+    if not usable:
+        yield
+        return
+    seconds = _LIMIT["later"] if _LIMIT["hit"] else _LIMIT["first"]
+
+    def handler(signum, frame):
+        _LIMIT["hit"] = True
+        raise CallTimeout(f"no result after {seconds:.0f} s")
+    prev = signal.signal(signal.SIGALRM, handler)
+    signal.setitimer(signal.ITIMER_REAL, seconds, 1.0)      # repeats: a library-level "except Exception" cannot swallow it for good
+    try:
+        yield
+    finally:
+        signal.setitimer(signal.ITIMER_REAL, 0)
+        signal.signal(signal.SIGALRM, prev)
+
+
 class _Abort(Exception):
     """A monitored call raised: the rest of the scenario cannot continue (the outcome is already recorded)."""
 
@@ -296,7 +327,7 @@ class Mon:
         def chk():
             self._in_call = True
             try:
-                with warnings.catch_warnings(), np.errstate(all="ignore"):
+                with warnings.catch_warnings(), np.errstate(all="ignore"), time_limit():
                     warnings.simplefilter("ignore")
                     st["value"] = fn(*args, **kw)
             except Exception as e:  # noqa: BLE001
@@ -893,7 +924,7 @@ def _bvp_case(m, mode, order, kind, coef_kind):
         m.call(f"{tag}-evaluate", sol, q, may_raise=True)
         got = m.outcomes[f"{tag}-evaluate"]
     try:
-        with warnings.catch_warnings(), np.errstate(all="ignore"):
+        with warnings.catch_warnings(), np.errstate(all="ignore"), time_limit():
             warnings.simplefilter("ignore")
             ref = canon(solve_ode_bvp(x0.copy(), f_ref, coeffs_ref, [list(b) for b in bd0], _ode_transform(kind), 1e-6, 2000, guess0.copy(), order != 3)(q0.copy()))
     except Exception as e:  # noqa: BLE001
@@ -932,7 +963,7 @@ def _ivp_case(m, mode, order, kind, y0_kind):
         m.call(f"{tag}-evaluate", sol, q, may_raise=True)
         got = m.outcomes[f"{tag}-evaluate"]
     try:
-        with warnings.catch_warnings(), np.errstate(all="ignore"):
+        with warnings.catch_warnings(), np.errstate(all="ignore"), time_limit():
             warnings.simplefilter("ignore")
             ref = canon(solve_ode_ivp(tuple(span0), f_ref, coeffs_ref, list(y00), _ode_transform(kind), "DOP853", nod, 1e-9, 1e-9)(q0.copy()))
     except Exception as e:  # noqa: BLE001
@@ -1154,6 +1185,7 @@ def run(tier, seed, *rest):
     col = Collector(RULE)
     notes = []
     reps = 1 if tier == "quick" else 4
+    _LIMIT.update(first=25.0 if tier == "quick" else 90.0, later=4.0 if tier == "quick" else 10.0, hit=False)
     for rep in range(reps):
         for name, fn, _funcs in SCENARIOS:
             run_scenario(col, name, fn, seed, tier, rep, notes)
